@@ -231,13 +231,13 @@ impl<'t> Gen<'t> {
     pub fn un(&mut self, i: usize, op: UnOp) -> usize {
         let a = self.attrs[i].take().expect("gen: stream used twice");
         let repl = match &op {
-            UnOp::Shuffle | UnOp::Gb(..) | UnOp::Broadcast | UnOp::Win(..) => Repl::Unlimited,
+            UnOp::Shuffle | UnOp::Gb(..) | UnOp::Broadcast | UnOp::Win(..) | UnOp::Extra(ExtraOp::KeyedChain(..)) | UnOp::Extra(ExtraOp::UniqueKeys) => Repl::Unlimited,
             UnOp::Repl(r) => *r,
             UnOp::Gl(..) | UnOp::WinAll(..) => Repl::One,
             _ => a.repl,
         };
         let (len, keys) = match &op {
-            UnOp::FlatMap(_) => (a.len * 2, a.keys),
+            UnOp::FlatMap(_) | UnOp::Extra(ExtraOp::Flatten(_)) | UnOp::Extra(ExtraOp::RichFlatMap(_)) | UnOp::Extra(ExtraOp::KeyedChain(..)) => (a.len * 2, a.keys),
             UnOp::Map(MapFn::Rekey(m, _)) => (a.len, *m as usize),
             UnOp::Gb(GbForm::RichCounter, _) | UnOp::Gb(GbForm::KeyedMap, _) => (a.len, a.keys),
             UnOp::Gb(..) => (a.keys.min(a.len), a.keys),
@@ -293,7 +293,26 @@ impl<'t> Gen<'t> {
         (0..self.attrs.len()).filter(|&i| self.attrs[i].is_some()).collect()
     }
 
+    pub fn gen_extra(&mut self, in_loop: bool) -> UnOp {
+        let p = [PredFn::VMod(3, 0), PredFn::IdBit(5), PredFn::KeyLt(3), PredFn::True][self.t.draw(4) as usize];
+        let f = [FlatFn::Copies(2), FlatFn::Twice, FlatFn::Copies(1)][self.t.draw(3) as usize];
+        let x = match self.t.draw(if in_loop { 6 } else { 8 }) {
+            0 => ExtraOp::FilterMap(p, MapFn::Add(2)),
+            1 => ExtraOp::Flatten(if in_loop { FlatFn::Copies(1) } else { f }),
+            2 => ExtraOp::RichFlatMap(if in_loop { FlatFn::Copies(1) } else { f }),
+            3 => ExtraOp::RichFilterMap(p),
+            4 => ExtraOp::Inspect,
+            5 => ExtraOp::KeyedChain(p, if in_loop { FlatFn::Copies(1) } else { f }),
+            6 => ExtraOp::MemoKey,
+            _ => ExtraOp::UniqueKeys,
+        };
+        UnOp::Extra(x)
+    }
+
     pub fn gen_map(&mut self) -> UnOp {
+        if self.t.draw(5) == 4 {
+            return self.gen_extra(true);
+        }
         match self.t.draw(8) {
             0 => UnOp::Map(MapFn::Add(1 + self.t.draw(9) as i64)),
             1 => UnOp::Filter(PredFn::VMod(2 + self.t.draw(4) as i64, 0)),
@@ -453,7 +472,7 @@ impl<'t> Gen<'t> {
         };
         match kind {
             0 => {
-                let op = self.gen_map();
+                let op = if depth == 0 && self.t.draw(6) == 5 { self.gen_extra(false) } else { self.gen_map() };
                 self.un(i, op);
             }
             1 => {
@@ -565,7 +584,7 @@ impl<'t> Gen<'t> {
         let mut cur_repl = Repl::Unlimited;
         fn push_un(body: &mut Vec<Step>, cur: &mut usize, nlocal: &mut usize, cur_repl: &mut Repl, op: UnOp) {
             *cur_repl = match &op {
-                UnOp::Shuffle | UnOp::Gb(..) | UnOp::Broadcast | UnOp::Win(..) => Repl::Unlimited,
+                UnOp::Shuffle | UnOp::Gb(..) | UnOp::Broadcast | UnOp::Win(..) | UnOp::Extra(ExtraOp::KeyedChain(..)) | UnOp::Extra(ExtraOp::UniqueKeys) => Repl::Unlimited,
                 UnOp::Repl(r) => *r,
                 UnOp::Gl(..) | UnOp::WinAll(..) => Repl::One,
                 _ => *cur_repl,
